@@ -3,9 +3,11 @@ PID = "C10"
 H = vf.VERIF + "/checks/C10/harness.cpp"
 SCHED = [vf.VERIF + "/engine/sched/sched.cpp", vf.VERIF + "/engine/sched/log_stub.cpp"]
 # (buff_size, min, max, pattern code OLA)   - see harness.cpp:
-#   A = append pattern: 0,1,6: one producer (3 threads); 2,3,5,7: two producers (4 threads); 4: three producers; 6,7 contain zero-length appends
+#   A = append pattern: 0,1,6,8: one producer (3 threads); 2,3,5,7: two producers (4 threads); 4: three producers; 6,7 contain zero-length appends;
+#       8: the sink callback appends too (pools that cannot reach their limit only)
 #   L = life cycle: 0 one session; 1 two sessions, same configuration; 3 rejected configurations offered to initialize() first, cleanup() twice;
-#       4 destroyed with pending data instead of cleanup(); 5,6 two full sessions with different configurations
+#       4 destroyed with pending data instead of cleanup(); 5,6 two full sessions with different configurations; 7 a second pipe alive and fed
+#       by the main thread at the same time (4 threads); 8 three sessions: no callback / no append / pattern A
 #   O = 1: initialize() before setCallback()
 CFG1 = [(1,1,1,0),(1,1,2,0),(2,1,1,0),(2,1,2,1),(2,2,3,0),(4,1,2,1),(1,1,1,1),(1,1,1,10),(2,1,2,10),(2,2,3,10),(2,1,2,11)]
 CFG2 = [(1,1,1,2),(2,1,2,2),(2,1,1,3),(2,2,3,3),(4,1,2,3),(2,1,2,5),(1,1,1,5),(2,1,2,12)]
@@ -15,10 +17,17 @@ CFG1N = [(1,1,3,0),(2,2,2,0),(4,2,2,0),                    # pool grows/shrinks 
          (1,1,1,100),(2,1,2,101),(2,2,3,110),             # initialize() before setCallback(), one and two sessions
          (1,1,1,30),(2,1,2,131),                          # refused initialize() calls first
          (1,1,1,40),(2,1,2,41),(2,2,3,140),               # destructor instead of cleanup()
-         (1,1,1,6),(2,1,2,6),(2,1,1,106)]                 # zero-length appends
-CFG1S = [(1,1,1,50),(2,1,2,50),(2,2,3,61),(1,1,2,160)]    # a full first session, then a second one under another configuration (expensive: two full sessions)
-CFG2N = [(2,1,2,7),(2,1,2,102),(2,1,1,43)]                # two producers: zero-length lockless parts, initialize() first, destructor
-CFG2S = [(2,1,2,52)]                                      # two producers in the second session of a re-configured pipe
+         (1,1,1,6),(2,1,2,6),(2,1,1,106),                 # zero-length appends
+         (1,1,8,8),(2,1,8,108)]                           # the sink callback appends one byte itself
+CFG1S = [(1,1,1,50),(2,1,2,50),(2,2,3,61),(1,1,2,160),    # a full first session, then a second one under another configuration (expensive: two full sessions)
+         (1,1,1,81),(2,1,2,80),(2,2,3,186)]               # three sessions: without a callback, without an append, then the judged one
+CFG2N = [(2,1,2,7),(2,1,2,102),(2,1,1,43),                # two producers: multi-part locked records with empty parts, initialize() first, destructor
+         (2,1,2,71)]                                      # one producer + a second pipe (1,1,2) alive and fed at the same time
+CFG2S = [(2,1,2,52),                                      # two producers in the second session of a re-configured pipe
+         (1,1,2,71),(2,2,3,170)]                          # second pipe with the larger buffers; initialize() first
+TS1 = [(2,1,2,5),(2,1,2,7)]                               # TSan lane at bound 1 in the quick tier too (locked multi-part records against a second producer and the timed flush)
+Q1 = [(2,2,3,10)]                                         # quick tier: this base configuration one bound lower (pays for the round-2 lanes)
+def minus(a, b): return [x for x in a if x not in b]
 # spurious condition-variable wake-ups (engine S option SCHED_SPURIOUS=1: one per execution, counted as a deviation) where a producer blocks at the buffer limit
 SPUR1 = [(1,1,1,0),(2,1,1,0)]
 SPUR2 = [(2,1,1,3)]
@@ -35,34 +44,46 @@ def main(tier, args):
     o = args.only
     if tier == "quick":
         b1, b2, b3, dl = 2, 1, 0, 90
-        jobs = (cmds(plain, CFG1, 2, "plain", o) + cmds(plain, CFG2, 1, "plain", o) + cmds(plain, CFG3, 0, "plain", o)
-                + cmds(plain, CFG1N + CFG1S, 1, "plain", o) + cmds(plain, CFG2N, 1, "plain", o) + cmds(plain, CFG2S, 0, "plain", o)
+        jobs = (cmds(plain, minus(CFG1, Q1), 2, "plain", o) + cmds(plain, CFG2, 1, "plain", o) + cmds(plain, CFG3, 0, "plain", o)
+                + cmds(plain, Q1 + CFG1N + CFG1S, 1, "plain", o) + cmds(plain, CFG2N, 1, "plain", o) + cmds(plain, CFG2S, 0, "plain", o)
                 + cmds(plain, SPUR1, 1, "plain-spur", o, SP)
                 + cmds(asan, CFG1 + CFG1N, 1, "asan", o) + cmds(asan, CFG2 + CFG1S + CFG2N + CFG2S + CFG3, 0, "asan", o)
-                + cmds(tsan, CFG1[:4], 1, "tsan", o) + cmds(tsan, CFG1[4:] + CFG2 + CFG1N + CFG1S + CFG2N + CFG2S + CFG3, 0, "tsan", o))
-        newb = "<= 1 (1 producer; two-producer second session of a re-configured pipe: 0)"
-        nsp, spb, ba, bt = len(SPUR1), "1", 1, 1
+                + cmds(tsan, CFG1[:4] + TS1, 1, "tsan", o) + cmds(tsan, CFG1[4:] + minus(CFG2 + CFG2N, TS1) + CFG1N + CFG1S + CFG2S + CFG3, 0, "tsan", o))
+        base = "<= 2 (1 producer; (2,2,3) two-session: 1)"
+        newb = "<= 1 (1 producer, and 1 producer + second pipe (2,1,2); the other second-pipe ones and the two-producer second session of a re-configured pipe: 0)"
+        nsp, spb, ba = len(SPUR1), "1", 1
+        bt = "<= 1 on 4 one-producer and 2 two-producer configurations, 0 on all others"
     else:
         b1, b2, b3, dl = 3, 2, 1, 1200
         jobs = (cmds(plain, CFG1, 3, "plain", o) + cmds(plain, CFG2, 2, "plain", o) + cmds(plain, CFG3, 1, "plain", o)
                 + cmds(plain, CFG1N + CFG1S[:1], 2, "plain", o) + cmds(plain, CFG1S[1:] + CFG2N + CFG2S, 1, "plain", o)
                 + cmds(plain, SPUR1, 2, "plain-spur", o, SP) + cmds(plain, SPUR2, 1, "plain-spur", o, SP)
                 + cmds(asan, CFG1, 2, "asan", o) + cmds(asan, CFG2 + CFG1N, 1, "asan", o) + cmds(asan, CFG1S + CFG2N + CFG2S + CFG3, 0, "asan", o)
-                + cmds(tsan, CFG1, 2, "tsan", o) + cmds(tsan, CFG2 + CFG1N, 1, "tsan", o) + cmds(tsan, CFG1S + CFG2N + CFG2S + CFG3, 0, "tsan", o))
-        newb = "<= 2 (1 producer; 3 of the 4 re-configured two-session ones: 1)"
-        nsp, spb, ba, bt = len(SPUR1 + SPUR2), "2 (1 producer) / 1 (2 producers)", 2, 2
+                + cmds(tsan, CFG1, 2, "tsan", o) + cmds(tsan, CFG2 + CFG1N + TS1[1:], 1, "tsan", o) + cmds(tsan, CFG1S + minus(CFG2N, TS1) + CFG2S + CFG3, 0, "tsan", o))
+        base = "<= 3 (1 producer)"
+        newb = "<= 2 (1 producer; all but one of the re-configured two-session and all three-session ones: 1)"
+        nsp, spb, ba = len(SPUR1 + SPUR2), "2 (1 producer) / 1 (2 producers)", 2
+        bt = "<= 2 on the one-producer base configurations, <= 1 on the two-producer base ones, the further one-producer ones and the multi-part-record one, 0 on the rest"
     env = {"VERIF_DEADLINE_S": str(dl), "VERIF_WORKERS": "3", "TSAN_OPTIONS": "report_signal_unsafe=0:exitcode=0"}
     vf.run_procs(res, jobs, env=env, log=log, jobs=6)
     vf.finish(PID, tier, res, t0,
               rule="stateless DFS over all interleavings at mutex/trylock/condvar/thread operations of the real AsyncPipe (producers, background thread, cleanup), "
-                   "timed-flush expiry as a bounded deviation; preemptions+deviations <= %d (1 producer), <= %d (2 producers), <= %d (3 producers) on the %d base configurations "
-                   "(buffer size 1/2/4, min/max buffers, append sizes <,=,> buffer and > whole pool, locked and lockless two-part appends; 5 of them re-initialise the same pipe object for a second session); "
+                   "timed-flush expiry as a bounded deviation; preemptions+deviations %s, <= %d (2 producers), <= %d (3 producers) on the %d base configurations "
+                   "(buffer size 1/2/4, min/max buffers, append sizes <,=,> buffer and > whole pool, binary payload with NUL and 0xff, locked and lockless multi-part appends; 5 of them re-initialise the same pipe object for a second session); "
                    "%s / <= 1 (2 producers) on %d further configurations: pool growing/shrinking by two buffers and min==max>1, initialize() before setCallback(), "
-                   "refused initialize() calls (each rejected field, with and without cleanup() after the refusal) before the real session and cleanup() called twice, destruction with pending data instead of cleanup(), "
-                   "a second session under a different configuration (buffer size and pool limits both larger and smaller) after a full first session, zero-length appends (locked, and first/second/both lockless parts); "
-                   "%d configurations additionally with one spurious condition-variable wake-up per execution as a deviation, <= %s; ASan build <= %d; TSan under the scheduler <= %d (further configurations and 3 producers at lower bounds, down to 0)"
-                   % (b1, b2, b3, len(CFG1 + CFG2 + CFG3), newb, len(CFG1N + CFG1S + CFG2N + CFG2S), nsp, spb, ba, bt),
-              assumptions=["appends concurrent with cleanup() are outside the property (DESIGN 1.7)", "sync points = pthread mutex/trylock/cond/create/join",
+                   "refused initialize() calls (each rejected field once followed by cleanup() and once followed directly by the next initialize()) before the real session and cleanup() called twice, destruction with pending data instead of cleanup(), "
+                   "a second session under a different configuration (buffer size and pool limits both larger and smaller) after a full first session, three sessions (without callback, without any append, then the judged one), "
+                   "zero-length appends (locked, and first/middle/last/all parts of a locked record, plain append right after a locked record), a second pipe with another buffer size alive and fed concurrently (each pipe judged separately), "
+                   "the sink callback appending a byte itself (pools that cannot reach their limit); in every configuration each append gets a fresh heap block that is overwritten and freed when the call returns, "
+                   "and the Config is zeroed and freed when initialize() returns; "
+                   "%d configurations additionally with one spurious condition-variable wake-up per execution as a deviation, <= %s; ASan build <= %d (further configurations and 3 producers at lower bounds, down to 0); "
+                   "TSan under the scheduler %s - bound 0 means no preemption and no timed-flush expiry while a thread can run (only the free choices at blocking points: a handful of schedules per configuration, "
+                   "the timed-flush branch is then not executed), so race freedom of that branch rests on the TSan lanes at bound >= 1"
+                   % (base, b2, b3, len(CFG1 + CFG2 + CFG3), newb, len(CFG1N + CFG1S + CFG2N + CFG2S), nsp, spb, ba, bt),
+              assumptions=["appends concurrent with cleanup() are outside the property (DESIGN 1.7); the sink's own append is required in the output only when it returned before cleanup() was called",
+                           "sync points = pthread mutex/trylock/cond/create/join",
                            "destroying the pipe is read as a cleanup (async_pipe.h documents that destruction stops the thread and delivers all buffered data)",
                            "the value initialize() returns for a rejected configuration is not judged - only that every cleanup() returns and the following session is lossless",
-                           "zero-size sink blocks are ignored (they do not change the concatenation)"])
+                           "zero-size sink blocks are ignored (they do not change the concatenation)",
+                           "an append from inside the sink callback on a pool that is at its limit is not exercised (the producer waits for the back end while holding the append lock)",
+                           "allocation and thread-creation failures are not injected"])
